@@ -165,18 +165,16 @@ def cayley (c : Cfg) (nI nJ : List Nat) : Int × List Nat :=
   if s = 0 then (0, []) else (s, c.nameOf (I ^^^ J))
 
 /-- `_blade2canon(spelling)`: `some (name, swaps)` or `none` for "generator outside the space".
-    The python passes the leading `e` through `_swap_blades` on both sides; it stays at index 0 and
-    contributes no swaps, which is reproduced here by prefixing a letter that no name contains. -/
+    The python passes the spelling and the canonical name *with* their leading `e` through
+    `_swap_blades`; that letter sits at index 0 of both, is moved from 0 to 0 and shifts `idx` and `i` of all
+    other letters by one, so `idx - i` and hence the swap count are those of the bare letter lists. -/
 def blade2canon (c : Cfg) (sp : List Nat) : Option (List Nat × Nat) :=
   if c.basis.contains sp then some (sp, 0) else
   if sp.any (fun l => !c.vecs.contains l) then none else
   let bin := sp.foldl (fun acc l => acc ||| 2 ^ (c.vecs.idxOf l)) 0
   match c.basis.find? (fun n => c.binOf n == bin) with
   | none => none
-  | some canon =>
-    let e := 1000000
-    let r := swapBlades (e :: sp) [] (e :: canon)
-    some (canon, r.1)
+  | some canon => some (canon, (swapBlades sp [] canon).1)
 
 /-- `BladeDict.__getitem__(spelling)`: (key, sign) of the returned basis blade -/
 def bladeOf (c : Cfg) (sp : List Nat) : Option (Nat × Int) :=
@@ -193,15 +191,15 @@ def indicesForGrades (c : Cfg) (gs : List Nat) : List Nat := gs.flatMap c.indice
 
 /-- Decidable admissibility of a configuration: what the `assert`s of `__post_init__` check plus
     what the naming scheme silently assumes (distinct single-hex-digit generator labels inside the
-    signature's index range, every bitmask spelled exactly once by a duplicate-free name over the
-    generators, names ordered by grade). -/
+    signature's index range, `2^d` duplicate-free names over the generators among which every bitmask
+    is spelled, names ordered by grade). -/
 def admissible (c : Cfg) : Bool :=
-  c.vecs.length == c.d && c.vecs.Nodup &&
-  c.vecs.all (fun v => c.start ≤ v && v < c.start + c.d && v < 16) &&
+  c.vecs.length == c.d && decide c.vecs.Nodup &&
+  c.vecs.all (fun v => decide (c.start ≤ v) && decide (v < c.start + c.d) && decide (v < 16)) &&
   c.basis.length == 2 ^ c.d &&
-  c.basis.all (fun n => n.Nodup && n.all (c.vecs.contains ·)) &&
-  (c.basis.map c.binOf).Nodup &&
-  (c.basis.map (·.length)).Pairwise (· ≤ ·) &&
+  c.basis.all (fun n => decide n.Nodup && n.all (c.vecs.contains ·)) &&
+  (List.range (2 ^ c.d)).all (fun I => (c.basis.find? (fun n => c.binOf n == I)).isSome) &&
+  decide ((c.basis.map (·.length)).Pairwise (· ≤ ·)) &&
   c.signature.all (fun s => s == 1 || s == -1 || s == 0)
 
 end Cfg
